@@ -99,12 +99,12 @@ def flag_definitions(fn):
     return out
 
 
-def facts_at(S, fn, node):
-    """branch facts (atom node, polarity) that must hold just before `node` is evaluated; a fact about a flag local
-    (`more = (r < len)` ... `if (more)`) is expanded into the facts of its defining expression when no operand of that
-    expression can have been stored to between the definition and `node`"""
+def facts_at(S, fn, node, point=None):
+    """branch facts (atom node, polarity) that must hold just before `node` is evaluated (or at the CFG point `point`); a
+    fact about a flag local (`more = (r < len)` ... `if (more)`) is expanded into the facts of its defining expression when
+    no operand of that expression can have been stored to between the definition and `node`"""
     pg, st = S.branch_facts(fn)
-    p = pg.before(node)
+    p = pg.before(node) if point is None else point
     if p is None or p not in st:
         return None
     facts = [(fn.nodes[nid], pol) for nid, pol in st[p]]
@@ -133,6 +133,73 @@ def facts_at(S, fn, node):
                     extra += list(C.cond_facts(ex, bool(pol)))
         facts += extra
     return facts
+
+
+def committed_exits(S, fn, value=0):
+    """Points from which the function is committed to returning the constant `value`, whatever the spelling: the point in
+    front of `return <value>`, and - when the function returns a result variable - every first point at which that
+    variable is known to hold `value` and cannot be stored to any more before the return (`goto done;`, `break;` out of a
+    do-while(0), falling through to `return result;`).  Returns [(point, node for the location)]."""
+    pg = S.pg(fn)
+    out = []
+    rets = [n for n in fn.nodes.values() if n.k == "ReturnStmt" and n.ch and n.id in fn.where]
+    rvars = set()
+    for r in rets:
+        c = C.const_of(r.child(0))
+        e = r.child(0).strip_all_casts()
+        if c is not None and e.k not in ("DeclRefExpr",):
+            if c == value:
+                out.append((pg.before(r), r))
+        elif e.k == "DeclRefExpr" and e["decl"]["kind"] == "local":
+            rvars.add(e["decl"]["name"])
+    for v in sorted(rvars):
+        def transfer(state, e, v=v):
+            if e.kind != "elem":
+                return state
+            n_ = e.node
+            if n_.k == "DeclStmt":
+                for d in n_.get("decls", []):
+                    if d["name"] == v:
+                        c_ = C.const_of(fn.nodes[d["init"]]) if "init" in d else None
+                        return frozenset({c_}) if c_ is not None else frozenset()
+                return state
+            t = C.store_target(n_)
+            if t is not None and t.get("path") == v:
+                c_ = C.const_of(n_.child(1)) if n_.get("op") == "=" and len(n_.ch) > 1 else None
+                return frozenset({c_}) if c_ is not None else frozenset()
+            return state
+        st = pg.must(transfer)
+        stores = [n for n, t in C.stores(fn) if t.get("path") == v]
+        dirty = set()                       # points from which a store to v is still reachable
+        for n in stores:
+            b = pg.before(n)
+            if b is not None:
+                dirty.add(b)
+        # backward closure
+        work = list(dirty)
+        while work:
+            q = work.pop()
+            for e in pg.inn.get(q, []):
+                if e.src not in dirty:
+                    dirty.add(e.src)
+                    work.append(e.src)
+        retpts = {pg.before(r) for r in rets if r.child(0).strip_all_casts().get("path") == v}
+        reach_ret = set(retpts)
+        work = list(retpts)
+        while work:
+            q = work.pop()
+            for e in pg.inn.get(q, []):
+                if e.src not in reach_ret:
+                    reach_ret.add(e.src)
+                    work.append(e.src)
+        region = {p_ for p_ in pg.points if p_ in st and value in st[p_] and p_ not in dirty and p_ in reach_ret}
+        for p_ in sorted(region):
+            ins = pg.inn.get(p_, [])
+            if not ins or any(e.src not in region for e in ins):
+                b = fn.blocks[p_[0]]
+                node = b.elems[p_[1]] if p_[1] < len(b.elems) else (b.elems[-1] if b.elems else None)
+                out.append((p_, node))
+    return out
 
 
 def path_to(fn, target_block_ids, start=None):
